@@ -111,6 +111,43 @@ theorem pivotsOf_rhs (A : List (Vec K)) (b : Vec K) (k : Nat) (hb : b.length = k
     (hrow : ∀ i, i < k → (A.getD i []).length = k) : gjPivots k k 0 (augment A b) = pivotsOf A k :=
   gjPivots_rhs A b _ k hb (by simp) hA hrow
 
+/-- **an injective matrix has no vanishing pivot** -/
+theorem pivots_of_injective (A : List (Vec K)) (k : Nat) (hA : A.length = k)
+    (hrow : ∀ i, i < k → (A.getD i []).length = k)
+    (hinj : ∀ x : Fin k → K, wmat k k A *ᵥ x = 0 → x = 0) : ∀ p ∈ pivotsOf A k, p ≠ 0 := by
+  unfold pivotsOf
+  have hb : (List.replicate k (0 : K)).length = k := by simp
+  apply gjPivots_ne_zero k k 0 _ (by omega) (augment_wf A _ k hb hA hrow) (fun _ _ j hj => absurd hj (Nat.not_lt_zero j))
+  · intro r hr
+    rw [augment_ent_right A _ k hb hA hrow r hr]
+    simp [List.getD_eq_getElem?_getD, hr]
+  · intro x hs j hj
+    have hAx : wmat k k A *ᵥ (fun j : Fin k => x j) = 0 := by
+      funext r
+      have := hs r r.2
+      rw [augment_ent_right A _ k hb hA hrow r r.2] at this
+      simp only [mulVec, dotProduct, wmat, Pi.zero_apply]
+      rw [Finset.sum_range] at this
+      have e : (List.replicate k (0 : K)).getD r 0 = 0 := by simp [List.getD_eq_getElem?_getD, r.2]
+      rw [e] at this
+      have h2 : ∑ c : Fin k, (A.getD r []).getD c 0 * x c =
+          ∑ c : Fin k, ent (augment A (List.replicate k 0)) r c * x c := by
+        apply Finset.sum_congr rfl
+        intro c _
+        rw [augment_ent_left A _ k hb hA hrow r c r.2 c.2]
+      rw [h2]; exact this
+    exact congrFun (hinj _ hAx) ⟨j, hj⟩
+
+/-- **a matrix with a left inverse has no vanishing pivot** -/
+theorem pivots_of_left_inverse (A : List (Vec K)) (k : Nat) (hA : A.length = k)
+    (hrow : ∀ i, i < k → (A.getD i []).length = k) (B : Matrix (Fin k) (Fin k) K) (hB : B * wmat k k A = 1) :
+    ∀ p ∈ pivotsOf A k, p ≠ 0 := by
+  apply pivots_of_injective A k hA hrow
+  intro x hx
+  have := congrArg (fun w => B *ᵥ w) hx
+  simp only [mulVec_mulVec, hB, one_mulVec, mulVec_zero] at this
+  exact this
+
 /-- **product with the middle matrix**: with non-vanishing pivots, `mv v` (the solve with `M⁻¹`) is the
 product with the inverse `Mm` of the matrix of `Minv` -/
 theorem mv_of_pivots (i : CauchyIn K) (k : Nat) (Mm : Matrix (Fin k) (Fin k) K) (uf : i.useFactor = true)
@@ -169,8 +206,57 @@ theorem wmat_subN (i : SubIn K) (n k : Nat) (hk : subK i = k) (hW : i.W.length =
   rw [getD_map' (subWz i) (fun row => row.getD a 0) r hr, getD_map' (subWz i) (fun row => row.getD b 0) r hr]
   simp [List.getD_eq_getElem?_getD, List.getElem?_eq_getElem hr]
 
+/-- **the reduced system is regular when the model is positive definite**: `N v = 0` gives, for `a = ZZᵀW v`,
+`B a = 0` on the free variables and `a = 0` on the others, so `aᵀBa = 0`, `a = 0`, `v = 0` -/
+theorem maskedN_injective {n k : Nat} (θ : K) (hθ : θ ≠ 0) (Wm : Matrix (Fin n) (Fin k) K)
+    (Mm Minvm : Matrix (Fin k) (Fin k) K) (hM : Mm * Minvm = 1) (m : Fin n → Bool)
+    (pd : ∀ a : Fin n → K, a ≠ 0 → 0 < a ⬝ᵥ (bmat θ Wm Mm *ᵥ a))
+    (v : Fin k → K)
+    (hv : (Minvm - (1 / θ) • ((C09.maskRows m Wm)ᵀ * C09.maskRows m Wm)) *ᵥ v = 0) : v = 0 := by
+  obtain ⟨a, ha⟩ : ∃ a, a = C09.maskRows m Wm *ᵥ v := ⟨_, rfl⟩
+  have h1 : Minvm *ᵥ v = (1 / θ) • ((C09.maskRows m Wm)ᵀ *ᵥ a) := by
+    rw [sub_mulVec, smul_mulVec, ← mulVec_mulVec, ← ha] at hv
+    exact sub_eq_zero.mp hv
+  have ha0 : ∀ r, m r = false → a r = 0 := by
+    intro r hr; rw [ha, C09.maskRows_mulVec, hr]; simp
+  have h3 : Mm *ᵥ (Minvm *ᵥ v) = v := by rw [mulVec_mulVec, hM, one_mulVec]
+  have hv2 : v = (1 / θ) • (Mm *ᵥ (Wmᵀ *ᵥ a)) := by
+    calc v = Mm *ᵥ (Minvm *ᵥ v) := h3.symm
+      _ = Mm *ᵥ ((1 / θ) • ((C09.maskRows m Wm)ᵀ *ᵥ a)) := by rw [h1]
+      _ = (1 / θ) • (Mm *ᵥ (Wmᵀ *ᵥ a)) := by rw [mulVec_smul, C09.maskRows_transpose_mulVec m Wm a ha0]
+  have key : Wm *ᵥ v = (1 / θ) • (Wm *ᵥ (Mm *ᵥ (Wmᵀ *ᵥ a))) := by
+    have := congrArg (fun w => Wm *ᵥ w) hv2
+    simp only [mulVec_smul] at this
+    exact this
+  have hfree : ∀ r, m r = true → (bmat θ Wm Mm *ᵥ a) r = 0 := by
+    intro r hr
+    rw [bmat_mulVec]
+    have e : a r = (1 / θ) * (Wm *ᵥ (Mm *ᵥ (Wmᵀ *ᵥ a))) r := by
+      rw [ha, C09.maskRows_mulVec, hr, if_pos rfl, ← ha]
+      have := congrFun key r
+      simpa using this
+    simp only [Pi.sub_apply, Pi.smul_apply, smul_eq_mul]
+    rw [e]
+    field_simp
+    ring
+  have hq : a ⬝ᵥ (bmat θ Wm Mm *ᵥ a) = 0 := by
+    simp only [dotProduct]
+    apply Finset.sum_eq_zero
+    intro r _
+    cases hr : m r with
+    | true => rw [hfree r hr, mul_zero]
+    | false => rw [ha0 r hr, zero_mul]
+  have haz : a = 0 := by
+    by_contra hne
+    have := pd _ hne
+    rw [hq] at this
+    exact lt_irrefl _ this
+  rw [hv2, haz]
+  simp
+
 /-- the hypotheses of `subspace_spec` with the two "exact solve" clauses replaced by the computable condition that
-no pivot of the two eliminations (on `M⁻¹` and on `N = M⁻¹ − (1/θ) WᵀZZᵀW`) vanishes -/
+no pivot of the elimination on `N = M⁻¹ − (1/θ) WᵀZZᵀW` vanishes (the pivots of the elimination on `M⁻¹` cannot vanish:
+`M⁻¹` has the inverse `Mm`) -/
 structure SubCtxP (i : SubIn K) (n k : Nat) (Mm : Matrix (Fin k) (Fin k) K) : Prop where
   hx : i.x.length = n
   hg : i.g.length = n
@@ -187,7 +273,6 @@ structure SubCtxP (i : SubIn K) (n k : Nat) (Mm : Matrix (Fin k) (Fin k) K) : Pr
   /-- `Mm` is the inverse of the matrix the model is given as `M⁻¹` -/
   hM : Mm * wmat k k i.Minv = 1
   hc : vec k i.c = (wmat n k i.W)ᵀ *ᵥ (vec n i.xc - vec n i.x)
-  pivM : ∀ p ∈ pivotsOf i.Minv k, p ≠ 0
   pivN : ∀ p ∈ pivotsOf (subN i) k, p ≠ 0
 
 theorem SubCtxP.toSubCtx {i : SubIn K} {n k : Nat} {Mm : Matrix (Fin k) (Fin k) K} (h : SubCtxP i n k Mm) :
@@ -195,7 +280,8 @@ theorem SubCtxP.toSubCtx {i : SubIn K} {n k : Nat} {Mm : Matrix (Fin k) (Fin k) 
   obtain ⟨hll, hul⟩ := inBoxF_lengths h.box
   have hml : (subMask i).length = n := by
     unfold subMask; rw [C09.freeMask_length i.xc i.lb i.ub hll hul, h.hxc]
-  have hmv := mv_of_pivots i.toCauchyIn k Mm h.uf h.hMl h.hMrow h.pivM h.hM
+  have hmv := mv_of_pivots i.toCauchyIn k Mm h.uf h.hMl h.hMrow
+    (pivots_of_left_inverse i.Minv k h.hMl h.hMrow Mm h.hM) h.hM
   have hr0l : (vadd i.g (smul i.theta (vsub i.xc i.x))).length = n := by
     simp [vadd, vsub, smul, vzip_length', h.hg, h.hxc, h.hx]
   have hRl : (subR i).length = n := by
@@ -217,5 +303,23 @@ theorem SubCtxP.toSubCtx {i : SubIn K} {n k : Nat} {Mm : Matrix (Fin k) (Fin k) 
   rw [h.hk, vec_wtv n k (subWz i) (subRHat i) hWzl hRHatl]
   congr 1
   exact vec_mask n (subR i) (subMask i) hRl hml
+
+/-- with a positive definite model the reduced system is regular: the pivot condition of `SubCtxP` holds -/
+theorem SubCtxP.of_pd {i : SubIn K} {n k : Nat} {Mm : Matrix (Fin k) (Fin k) K}
+    (hx : i.x.length = n) (hg : i.g.length = n) (hxc : i.xc.length = n) (hW : i.W.length = n)
+    (hrow : ∀ r, r < n → (i.W.getD r []).length = k) (hcl : i.c.length = k) (box : InBoxF i.lb i.ub i.xc)
+    (hθ : i.theta ≠ 0) (uf : i.useFactor = true) (hk : subK i = k) (hMl : i.Minv.length = k)
+    (hMrow : ∀ r, r < k → (i.Minv.getD r []).length = k) (hM : Mm * wmat k k i.Minv = 1)
+    (hc : vec k i.c = (wmat n k i.W)ᵀ *ᵥ (vec n i.xc - vec n i.x))
+    (pd : ∀ a : Fin n → K, a ≠ 0 → 0 < a ⬝ᵥ (bmat i.theta (wmat n k i.W) Mm *ᵥ a)) : SubCtxP i n k Mm := by
+  obtain ⟨hll, hul⟩ := inBoxF_lengths box
+  have hml : (subMask i).length = n := by
+    unfold subMask; rw [C09.freeMask_length i.xc i.lb i.ub hll hul, hxc]
+  obtain ⟨hNl, hNrow⟩ := subN_wf i k hk hMl hMrow
+  refine ⟨hx, hg, hxc, hW, hrow, hcl, box, hθ, uf, hk, hMl, hMrow, hM, hc, ?_⟩
+  apply pivots_of_injective (subN i) k hNl hNrow
+  intro v hv
+  rw [wmat_subN i n k hk hW hml hMl hMrow, wmat_subWz i n k hW hml] at hv
+  exact maskedN_injective i.theta hθ (wmat n k i.W) Mm (wmat k k i.Minv) hM (maskF n (subMask i)) pd v hv
 
 end Lbfgsb.Gauss
